@@ -175,6 +175,8 @@ func c19Restorable(c *Ctx, ms map[string]*fsmx.Machine) {
 				}
 			}
 		}
+		// (`state == ""` in every spelling: len(state) == 0, len(state) < 1, …)
+		nothing = append(nothing, emptyEdges(copyWith, func(p string) bool { return p == "state" })...)
 		bad := ""
 		for _, ret := range ssax.Returns(copyWith) {
 			if ssax.ReachableAvoiding(copyWith, ret, nothing, stores) {
@@ -605,7 +607,7 @@ func c19Listing(c *Ctx) {
 		}
 	}
 	// ... and what is stored for a round is what was last saved for it: the blob of all rounds is rewritten under one lock
-	c14RMWAs(c, c14Roots(c), "C19/R5", "getStateKey()")
+	c14RMWAs(c, c14Roots(c), "C19/R5", "SaveFSM")
 	r.Rule("C19/R4", "listing restores every stored round through FromDump and propagates an error", 1)
 	fn := c.Fn("C19/R4", "client/services/fsmservice", "FSM", "GetAllFSM")
 	if fn == nil {
